@@ -1993,6 +1993,8 @@ pub(crate) struct BtreePositionalIterator {
     current_page: Option<PageId>,
     current_slot: isize,
     direction: IterDirection,
+    /// Set once an error has been yielded: the iterator is finished, it must not report the same error forever.
+    failed: bool,
 }
 
 impl BtreePositionalIterator {
@@ -2018,6 +2020,7 @@ impl BtreePositionalIterator {
             current_page: Some(page),
             current_slot: slot,
             direction,
+            failed: false,
         };
 
         iterator.validate(BtreePagePosition::new(page, slot as usize))?;
@@ -2075,13 +2078,19 @@ impl Iterator for BtreePositionalIterator {
     type Item = BtreeResult<BtreePagePosition>;
 
     fn next(&mut self) -> Option<Self::Item> {
+        if self.failed {
+            return None;
+        }
         let page_id = self.current_page?;
 
-        match self.direction {
+        let item = match self.direction {
             IterDirection::Forward => {
                 let num_slots = match self.tree.get_page(page_id) {
                     Ok(page) => page.num_slots() as isize,
-                    Err(e) => return Some(Err(e)),
+                    Err(e) => {
+                        self.failed = true;
+                        return Some(Err(e));
+                    }
                 };
 
                 if self.current_slot < num_slots {
@@ -2109,7 +2118,11 @@ impl Iterator for BtreePositionalIterator {
                     }
                 }
             }
+        };
+        if matches!(item, Some(Err(_))) {
+            self.failed = true;
         }
+        item
     }
 }
 
